@@ -192,10 +192,10 @@ class ResDomain(Domain):
                 a = [ex._rvalue(x, st, fr) for x in n.ns('args') if x is not None]
                 pred = next((x for x in a if isinstance(x, Closure)), None)
                 st.events.append(('wait', n, pred))
-                if pred is None:
-                    # loop form: while this thread slept, other threads changed the monitor state
-                    for fldn, sym in (('m_upperUnlockBound', 'bound2'), ('m_idCounter', 'next2'), ('m_activeCount', 'cnt2')):
-                        st.store[('f', fr.this + (fldn,))] = Lin.sym(sym)
+                # while this thread slept, other threads changed the monitor state: what it reads afterwards is not what the row says it held on entry
+                for fldn, sym in (('m_upperUnlockBound', 'bound2'), ('m_idCounter', 'next2'), ('m_activeCount', 'cnt2')):
+                    st.store[('f', fr.this + (fldn,))] = Lin.sym(sym)
+                st.store[('f', fr.this + ('m_activeOp',))] = Unknown('op-after-wait')
                 return None
             st.events.append((base, n, None)); return None
         if obj is not None and obj.is_field('m_mutex', CLS):
